@@ -36,6 +36,8 @@ Paths == {"dense_list", "ndarray", "csr", "csc", "coo", "lil", "dok", "edge_list
           "pickle.copy", "edge_list_n.copy",
           \* sparse input with explicitly stored zero entries; a network whose copy was edited afterwards
           "csr_zeros", "csc_zeros", "coo_zeros", "copy_then_edit",
+          \* a network that has answered its (link-weighted) measures, its copy and what it saves
+          "used", "used.copy", "used.graphml",
           \* histories: save, change the node weights, save again, load the second file
           "resave_unit.graphml", "resave_unit.pickle", "resave_w.graphml", "resave_w.pickle",
           \* the spatial subclasses (network file + grid file)
